@@ -74,9 +74,11 @@ type cmdRec struct {
 	validUntil time.Time     // command timestamp + window: last instant of its validity window
 	firstAt    time.Duration // first delivery
 	lastAt     time.Duration // most recent delivery (start instant)
+	lastDone   time.Duration // start instant of the most recent delivery that has returned
 	deliveries int
 	inFlight   int
 	accepts    []accept
+	forgedAt1  int // w.forgedDeliveries when it was first acted on
 }
 
 type world struct {
@@ -100,6 +102,10 @@ type world struct {
 	forwards    map[cmdKey]int
 	forwardsAll int
 	sendYield   bool
+	isDefault   bool
+
+	forgedDeliveries int // forged commands delivered so far (any kind)
+	genuineDelivered int // distinct genuine commands delivered (or locally issued) so far
 }
 
 func agentID(tag byte, n int) identity.AgentID {
@@ -185,7 +191,7 @@ func (w *world) newGenuine(origin identity.AgentID, ts uint64, wake bool) *cmdRe
 		panic("harness: freshly signed command does not verify")
 	}
 	rec := &cmdRec{n: len(w.cmds), key: cmdKey{origin, id, ts, sig}, wake: wake,
-		validUntil: time.Unix(int64(ts), 0).Add(w.window), firstAt: -1, lastAt: -1}
+		validUntil: time.Unix(int64(ts), 0).Add(w.window), firstAt: -1, lastAt: -1, lastDone: -1}
 	w.cmds = append(w.cmds, rec)
 	w.byKey[rec.key] = rec
 	return rec
@@ -223,9 +229,10 @@ func (w *world) deliver(op int, k cmdKey, asWake bool, from identity.AgentID, se
 	at := w.now()
 	prev := time.Duration(-1)
 	if rec != nil {
-		prev = rec.lastAt
+		prev = rec.lastDone
 		if rec.firstAt < 0 {
 			rec.firstAt = at
+			w.genuineDelivered++
 		}
 		rec.lastAt = at
 		rec.deliveries++
@@ -253,6 +260,7 @@ func (w *world) deliver(op int, k cmdKey, asWake bool, from identity.AgentID, se
 		typ = "wake"
 	}
 	if rec == nil {
+		w.forgedDeliveries++
 		if !quiet {
 			simrt.Eventf("deliver op=%d %s forged(%s) id=%d from=peer%d acted=%v", op, typ, label, k.id, from[15], ok)
 		}
@@ -264,6 +272,9 @@ func (w *world) deliver(op int, k cmdKey, asWake bool, from identity.AgentID, se
 		return ok
 	}
 	rec.inFlight--
+	if at > rec.lastDone {
+		rec.lastDone = at
+	}
 	simrt.Eventf("deliver op=%d %s cmd=%d(%s) from=peer%d acted=%v", op, typ, rec.n, label, from[15], ok)
 	if ok {
 		w.acted(rec, accept{start: start, end: end, at: at, how: fmt.Sprintf("%s frame from peer%d (%s, op %d)", typ, from[15], label, op)}, prev)
@@ -276,6 +287,7 @@ func (w *world) acted(rec *cmdRec, a accept, prevDelivery time.Duration) {
 	simrt.Probe("acted")
 	if len(rec.accepts) == 0 {
 		rec.accepts = append(rec.accepts, a)
+		rec.forgedAt1 = w.forgedDeliveries
 		return
 	}
 	first := rec.accepts[len(rec.accepts)-1]
@@ -292,10 +304,18 @@ func (w *world) acted(rec *cmdRec, a accept, prevDelivery time.Duration) {
 		sig = "replay acted on within the seen-cache TTL (seen entry lost)"
 	}
 	simrt.Failf("command-acted-twice", sig,
-		"genuine command #%d (issued as %s, timestamp = first receipt %+v, valid until t=%v) was acted on at t=%v via %s and again at t=%v via %s; previous delivery of it at t=%v; config ttl=%v window=%v max_seen=%d; %d deliveries of this command so far",
+		"genuine command #%d (issued as %s, timestamp = first receipt %+v, valid until t=%v) was acted on at t=%v via %s and again at t=%v via %s; previous completed delivery of it: %s; config ttl=%v window=%v max_seen=%d%s; %d deliveries of this command so far; %d forged commands delivered between the two actions; %d distinct genuine commands delivered in the run",
 		rec.n, map[bool]string{false: "sleep", true: "wake"}[rec.wake],
 		time.Unix(int64(rec.key.ts), 0).Sub(epoch().Add(rec.firstAt)).Round(time.Millisecond),
-		rec.validUntil.Sub(epoch()), first.at, first.how, a.at, a.how, prevDelivery, w.ttl, w.window, w.maxSize, rec.deliveries)
+		rec.validUntil.Sub(epoch()), first.at, first.how, a.at, a.how, prevStr(prevDelivery), w.ttl, w.window, w.maxSize,
+		map[bool]string{false: "", true: " (the defaults agent.go uses)"}[w.isDefault], rec.deliveries, w.forgedDeliveries-rec.forgedAt1, w.genuineDelivered)
+}
+
+func prevStr(d time.Duration) string {
+	if d < 0 {
+		return "none"
+	}
+	return "t=" + d.String()
 }
 
 var epochT time.Time
@@ -365,7 +385,8 @@ func runC29() {
 	defer w.f.Stop()
 
 	simrt.Eventf("C29 ttl=%v window=%v max=%d origins=%d bigflood=%v", w.ttl, tw.win, w.maxSize, nOrigins, bigFlood)
-	if w.maxSize == 10000 && tw == ttlWins[0] {
+	if w.maxSize == 10000 && (tw == ttlWins[0] || tw == ttlWins[4]) {
+		w.isDefault = true
 		simrt.Probe("config_default")
 	}
 
@@ -666,8 +687,9 @@ func (w *world) opLocal(op int) {
 	wake := simrt.Chance(1, 3, "wake")
 	ts := uint64(time.Now().Unix())
 	rec := w.newGenuine(w.local, ts, wake)
-	rec.firstAt, rec.lastAt = w.now(), w.now()
+	rec.firstAt, rec.lastAt, rec.lastDone = w.now(), w.now(), w.now()
 	rec.deliveries++
+	w.genuineDelivered++
 	simrt.Eventf("op=%d local-trigger cmd=%d wake=%v", op, rec.n, wake)
 	simrt.Probe("local_trigger")
 	w.lclock++
@@ -698,6 +720,7 @@ func (w *world) bigFlood() {
 		w.deliver(op, k, false, w.peers[1], []identity.AgentID{k.origin}, "unsigned", true)
 	}
 	simrt.ProbeN("forged_delivered", int64(n))
+	simrt.Probe("flooded_past_default_limit")
 	sz := w.f.SleepCommandSeenCacheSize()
 	simrt.Eventf("op=%d cache-size=%d", op, sz)
 	if sz > w.maxSize {
